@@ -67,6 +67,10 @@ func fmtSx(f []FP) Sx {
 			out.List = append(out.List, L(Sym(p.Kind), Sym(p.Verb), N(p.I)))
 		case "err":
 			out.List = append(out.List, L(Sym("err"), Sym(p.Verb), p.R.Sx()))
+		case "xstr", "xsafestr":
+			out.List = append(out.List, L(Sym(p.Kind), Sym("s"), A(p.S)))
+		case "xint":
+			out.List = append(out.List, L(Sym(p.Kind), Sym("s"), N(p.I)))
 		default:
 			panic("bad piece kind " + p.Kind)
 		}
@@ -208,6 +212,18 @@ func fmtArgs(c *BuildCtx, f []FP) (string, []interface{}) {
 		switch p.Kind {
 		case "lit":
 			b.WriteString(strings.ReplaceAll(p.S, "%", "%%"))
+			continue
+		}
+		// arguments without a verb
+		switch p.Kind {
+		case "xstr":
+			args = append(args, p.S)
+			continue
+		case "xsafestr":
+			args = append(args, redact.Safe(p.S))
+			continue
+		case "xint":
+			args = append(args, int(p.I))
 			continue
 		}
 		b.WriteString("%" + p.Verb)
@@ -463,6 +479,8 @@ func (r *R) Build(c *BuildCtx) error {
 			return &ut.WEmpty{Err: k}
 		case "safedet":
 			return &ut.WSafeDet{Msg: r.S[1], Details: r.Strs, Err: k}
+		case "as":
+			return &ut.WAs{Msg: r.S[1], Err: k}
 		}
 	case "transfer":
 		return transfer(kid(0), r.Procs)
